@@ -150,11 +150,17 @@ func cmdCheck(args []string) int {
 	if len(conf.Pkgs) == 0 {
 		conf.Pkgs = []pkgRef{{"/repo", "./vgirpc"}}
 	}
+	for i := range conf.Pkgs {
+		conf.Pkgs[i].Dir = repoDir(conf.Pkgs[i].Dir)
+	}
 	var trustedFiles []string
 	ms, _ := filepath.Glob(filepath.Join(*verif, "trusted", "*.spec"))
 	trustedFiles = append(trustedFiles, ms...)
 
 	workdir := filepath.Join(*verif, "work", *prop)
+	if w := os.Getenv("VERIF_WORK"); w != "" {
+		workdir = w
+	}
 	os.RemoveAll(workdir)
 
 	var allObls []*Obl
@@ -635,6 +641,7 @@ func runBounded(verif, prop string, bs boundedSpec) (map[string]any, bool) {
 	if dir == "" {
 		dir = "/repo"
 	}
+	dir = repoDir(dir)
 	if pkg == "" {
 		pkg = "./vgirpc"
 	}
@@ -740,6 +747,16 @@ func containsStr(xs []string, s string) bool {
 func isAbstractTarget(label string) bool {
 	return strings.HasPrefix(label, "field:") || strings.HasPrefix(label, "param:") || strings.HasPrefix(label, "captured:") ||
 		strings.HasPrefix(label, "var:") || label == "dynamic" || (!strings.HasPrefix(label, "(") && strings.Contains(label, ".") && !strings.Contains(label, "$"))
+}
+
+// repoDir: VERIF_REPO=<dir> runs a check against a scratch copy of the repository instead of
+// /repo (used by the seeded-defect selftest so that it does not touch /repo's working tree; the
+// registered commands never set it).
+func repoDir(d string) string {
+	if r := os.Getenv("VERIF_REPO"); r != "" && (d == "/repo" || strings.HasPrefix(d, "/repo/")) {
+		return r + strings.TrimPrefix(d, "/repo")
+	}
+	return d
 }
 
 func failLine(out string) string {
